@@ -317,6 +317,8 @@ def native_replay(o=None):
 
 
 def run(R):
+    from engine.canary import run_canaries
+    run_canaries(R, ('symx',))
     import aurel.reading as Rm
     for n in ('save_data', 'read_aurel_data', 'read_data'):
         R.under_contract(getattr(Rm, n))
